@@ -14,29 +14,8 @@ import Gv.Oracle.Dist
 import Gv.Oracle.Fmt
 import Gv.Oracle.Weights
 import Gv.Oracle.Det
-/-!
-oracle: reads lines `<id> \t <impl result> \t <op> \t <arg>...` and prints
-`<id> \t <model result> \t <verdict>`.
--/
+import Gv.Oracle.Loop
+/-! oracle with every handler (see `Gv/Oracle/Loop.lean`) -/
 open Gv Gv.Oracle
 
-def handlers : List Handler := [SeqOps.handle, BagOps.handle, RandOps.handle, SitesOps.handle, CleanOps.handle, StatsOps.handle, DedupOps.handle, MaskOps.handle, SWOps.handle, Models.handle, PoolOps.handle, DistOps.handle, PureOps.handle, FmtOps.handle, WeightsOps.handle, DetOps.handle]
-
-def answer (op : String) (args : List String) (impl : String) : Ans :=
-  match handlers.findSome? (fun h => h op args impl) with
-  | some a => a
-  | none => ⟨"bad-op", "na"⟩
-
-partial def loop (h out : IO.FS.Stream) : IO Unit := do
-  let line ← h.getLine
-  if line.isEmpty then return ()
-  let line := if line.back == '\n' then (line.dropEnd 1).toString else line
-  match line.splitOn "\t" with
-  | id :: impl :: op :: args =>
-    let a := answer op args impl
-    out.putStrLn (id ++ "\t" ++ a.model ++ "\t" ++ a.verdict)
-  | _ => out.putStrLn "?\tbad-line\tna"
-  loop h out
-
-def main : IO Unit := do
-  loop (← IO.getStdin) (← IO.getStdout)
+def main : IO Unit := runOracle [SeqOps.handle, BagOps.handle, RandOps.handle, SitesOps.handle, CleanOps.handle, StatsOps.handle, DedupOps.handle, MaskOps.handle, SWOps.handle, Models.handle, PoolOps.handle, DistOps.handle, PureOps.handle, FmtOps.handle, WeightsOps.handle, DetOps.handle]
